@@ -23,6 +23,7 @@ BOUNDS = {"quick": {"population": 3, "sequence": 3}, "thorough": {"population": 
 
 SRC = '''
 import functools
+from ptera import tooled
 
 def deco(fn):
     @functools.wraps(fn)
@@ -49,6 +50,11 @@ class Plain:
     @deco
     def wrapped(self, x):
         v = x + 2
+        return v
+    @deco
+    @tooled
+    def wrapped_tooled(self, x):
+        v = x + 7
         return v
     @property
     def prop(self):
@@ -471,6 +477,9 @@ def check_paths(ns, part):
         ("Box.area() as r", lambda: (ns["Box"]().area,), [{"r": 21}]),
         ("Plain.wrapped() as r", lambda: (a.wrapped(1),), [{"r": 3}]),
         ("a.wrapped() as r", lambda: (b.wrapped(1), a.wrapped(1)), [{"r": 3, "self": a}]),
+        # the decorator wraps a method that is permanently tooled (functools.wraps copies its attributes)
+        ("Plain.wrapped_tooled > v", lambda: (a.wrapped_tooled(1), b.wrapped_tooled(2)), [{"v": 8}, {"v": 9}]),
+        ("a.wrapped_tooled > v", lambda: (a.wrapped_tooled(1), b.wrapped_tooled(2)), [{"v": 8, "self": a}]),
         ("fz.wrapped > v", lambda: (fz.wrapped(1), fz2.wrapped(2)), [{"v": 3, "self": fz}]),
         ("fz.meth > v", lambda: (fz2.meth(1), fz.meth(2)), [{"v": 3, "self": fz}]),
     ]
